@@ -147,10 +147,11 @@ func driveLS(t *vlib.T, sp lsSpec, p phi, s0 float64) string {
 	ls := sp.mk()
 	f0, g0 := p.f(0), p.g(0)
 	fail := func(class, format string, a ...any) {
-		t.SubViolation(fmt.Sprintf(" step0=%g", s0), class, nil, "%s phi=%s step0=%g: %s", sp.name, p.name, s0, fmt.Sprintf(format, a...))
+		report(t, fmt.Sprintf(" step0=%g", s0), class, nil, "%s phi=%s step0=%g: %s", sp.name, p.name, s0, fmt.Sprintf(format, a...))
 	}
 	op := ls.Init(f0, g0, s0)
 	cur := s0
+	stalled := 0
 	haveF, haveG := false, false
 	var fs, gs float64
 	for it := 0; it < lsMaxIter; it++ {
@@ -200,12 +201,24 @@ func driveLS(t *vlib.T, sp lsSpec, p phi, s0 float64) string {
 			t.Max("linesearch_iterations", int64(it+1))
 			return "accepted"
 		}
+		if math.Abs(step-cur) <= 1e-12*math.Abs(cur) {
+			stalled++
+		} else {
+			stalled = 0
+		}
 		if step != cur {
 			cur = step
 			haveF, haveG = false, false
 		}
 		op = nop
 	}
-	fail("linesearch-no-termination", "no conclusion after %d iterations", lsMaxIter)
+	switch {
+	case math.IsNaN(cur):
+		fail("morethuente-nan-step-no-termination", "no conclusion after %d iterations: the trial step is NaN", lsMaxIter)
+	case stalled > lsMaxIter/2:
+		fail("morethuente-stalled-step-no-termination", "no conclusion after %d iterations: the trial step has stayed at %v (to 1e-12 relative) for the last %d iterations", lsMaxIter, cur, stalled)
+	default:
+		fail("linesearch-no-termination", "no conclusion after %d iterations", lsMaxIter)
+	}
 	return "no-termination"
 }
